@@ -215,6 +215,18 @@ pub fn run(seed: u64, thorough: bool, out_dir: &Path, scratch: &Path) -> Out {
                 let m = 2 + (hi as usize % 3);
                 let k = main_blocks.len() - m;
                 for b in &main_blocks[..k] { let _ = node.process(b); }
+                // ... and a block stored long ago that never got a verification record (ChainService stores a block before it
+                // looks for its parent: a side block whose verification was still queued, an orphan whose parent never came)
+                // sits some heights BELOW the tip, with heights that have nothing unverified between it and the backlog
+                {
+                    let on_main: std::collections::HashSet<Byte32> = main_blocks.iter().map(|b| b.hash()).collect();
+                    if let Some(sb) = blocks.iter().find(|b| !on_main.contains(&b.hash()) && b.number() >= 1 && b.number() + 2 <= k as u64) {
+                        let txn = node.shared.store().begin_transaction();
+                        txn.insert_block(sb).expect("insert_block");
+                        txn.commit().expect("commit");
+                        *out.stats.entry("backlog_states_with_an_old_unverified_block_below_the_tip".into()).or_default() += 1;
+                    }
+                }
                 for b in &main_blocks[k..] {
                     let txn = node.shared.store().begin_transaction();
                     txn.insert_block(b).expect("insert_block");
